@@ -11,6 +11,13 @@ package main
 //   pin "free" today's behaviour, not pinned by the statement                          drift
 // plus, for every call: no panic, and with a one-byte-at-a-time source nothing is consumed past
 // the declared content length (limit).                                                alarm
+//
+// The code under test runs in a worker sub-process (`misch frame-worker`) under an address-space cap
+// (RLIMIT_AS 2 GiB): a reader that dies -- `fatal error: runtime: out of memory` because it allocated
+// the declared Content-Length before any body byte was there, an unrecovered panic -- kills only the
+// worker; the parent reports `fatal:<defect class>` / `panic:<defect class>` for the case that killed
+// it and restarts the worker behind that case.  A recoverable panic inside Read is caught in the
+// worker and reported as `panic:<defect class>` too.
 
 import (
 	"bufio"
